@@ -183,6 +183,51 @@ func checkC18(r *Result) {
 	}
 	r.check(dirs["increase"] && dirs["decrease"] && len(cmps) == 2, "LIN-BOUNDS", "(x/reporter/ante.TrackStakeChangesDecorator).AnteHandle # one increase and one decrease comparison", P.Pos(ah.Pos()), fmt.Sprintf("%d bound comparisons found %v", len(cmps), keysOf(dirs)))
 
+	// the transaction is handed on only after each non-zero amount was compared with its bound
+	{
+		var atoms []Atom
+		for _, c := range cmps {
+			c := c
+			atoms = append(atoms, Atom{Name: "pos:" + c.dir, Stable: true, Cond: func(rel *Term) (bool, bool) {
+				if rel.Op == "<" && len(rel.Args) == 2 && rel.Args[0].Op == "const:0" && rel.Args[1].V != nil && rel.Args[1].V == c.accV {
+					return true, true
+				}
+				return false, false
+			}})
+			atoms = append(atoms, Atom{Name: "checked:" + c.dir, Event: func(in ssa.Instruction) (bool, int8) { return in == c.where, T }})
+		}
+		pa := AnalyzePaths(ah, atoms)
+		nNext, okAll, det := 0, true, ""
+		for _, b := range ah.Blocks {
+			for _, in := range b.Instrs {
+				c, ok := in.(*ssa.Call)
+				if !ok {
+					continue
+				}
+				if p, isParam := c.Call.Value.(*ssa.Parameter); !isParam || p.Name() != "next" {
+					continue
+				}
+				nNext++
+				if bad := pa.Require(in, func(v map[string]bool) bool {
+					for _, c := range cmps {
+						if v["pos:"+c.dir] && !v["checked:"+c.dir] {
+							return false
+						}
+					}
+					return true
+				}); len(bad) > 0 {
+					okAll, det = false, fmt.Sprint(bad)
+				}
+			}
+		}
+		matched := true
+		for _, c := range cmps {
+			if len(pa.Matched["pos:"+c.dir]) == 0 {
+				matched = false
+			}
+		}
+		r.check(okAll && nNext >= 1 && matched && len(cmps) == 2, "LIN-BOUNDS", "(x/reporter/ante.TrackStakeChangesDecorator).AnteHandle # the transaction is handed on only after every positive amount was compared with its bound", P.Pos(ah.Pos()), fmt.Sprintf("%d hand-over sites %s", nNext, det))
+	}
 	wantTypes := map[string]string{
 		"github.com/cosmos/cosmos-sdk/x/staking/types.MsgCreateValidator":           "increase",
 		"github.com/cosmos/cosmos-sdk/x/staking/types.MsgDelegate":                  "increase",
